@@ -105,6 +105,56 @@ var corpusTexts = []string{
 	"x eq true", "x eq TRUE", "x pr", "x PR", "x eq \"\"", "x eq \"", "x in []", "x in [1,]", "x in [1", "x eq - 1", "x eq -1", "x eq --1", "x eq -1.5", "x eq -1.2.3", "x eq 1.2.3.4", "x eq 00", "x eq 0", "x eq 0.0", "x eq 0.", "x eq .5",
 }
 
+// c20Judge compares the shipped lexer/parser with the model on one string; "" = they agree
+func (c *Ctx) c20Judge(str string) (what, demand, gos, ms string) {
+	g := goLexParse(str)
+	h := runeHex(str)
+	ans := c.ask([]string{"LEX\t" + h, "PARSE\t" + h})
+	lexA, parA := ans[0], ans[1]
+	if g.Panic != "" {
+		return "the shipped lexer/parser panicked", "lexer and parser report errors through their listeners", g.Panic, parA
+	}
+	mLexErr := lexA == "LEXERR"
+	if mLexErr != g.LexErr {
+		return "lexical-error flag differs from the grammar's token rules", fmt.Sprintf("lexical error expected by the grammar: %v", mLexErr), fmt.Sprintf("lexErr=%v tokens=%s", g.LexErr, g.Tokens), lexA
+	}
+	if !mLexErr {
+		if mt := strings.TrimPrefix(strings.TrimPrefix(lexA, "OK"), " "); mt != g.Tokens {
+			return "token stream differs from maximal munch over the grammar's token rules", "tokens " + mt, g.Tokens, mt
+		}
+	}
+	mAccept := strings.HasPrefix(parA, "OK ")
+	if mAccept != g.Accept {
+		return "accept/reject differs from the grammar", fmt.Sprintf("sentence of JsonQuery.g4: %v", mAccept), fmt.Sprintf("accept=%v", g.Accept), parA
+	}
+	if mAccept {
+		if m := strings.TrimPrefix(parA, "OK "); m != g.Shape {
+			return "parse tree differs from the structure the grammar prescribes", m, g.Shape, m
+		}
+	}
+	return "", "", "", ""
+}
+
+// shrinkText deletes characters (and halves) while `bad` still holds
+func shrinkText(s string, bad func(string) bool) string {
+	rs := []rune(s)
+	attempts := 0
+	for progress := true; progress && attempts < 400; {
+		progress = false
+		for size := len(rs) / 2; size >= 1 && !progress; size /= 2 {
+			for i := 0; i+size <= len(rs) && attempts < 400; i += size {
+				cand := append(append([]rune(nil), rs[:i]...), rs[i+size:]...)
+				attempts++
+				if bad(string(cand)) {
+					rs, progress = cand, true
+					break
+				}
+			}
+		}
+	}
+	return string(rs)
+}
+
 func checkC20(c *Ctx) {
 	c.Res.Rule = "strings: 45% sentences rendered from random trees of the extracted grammar with random spellings, 35% 1-3 step mutations of sentences, 12% token soup, 8% random bytes; a case is non-trivial and distinct when its string is new and it is a sentence with >= 2 tokens or a string on which lexer or parser must report an error after at least one good token"
 	n := c.budget(25000, 1200000)
@@ -127,7 +177,13 @@ func checkC20(c *Ctx) {
 			c.count("family_" + x.fam)
 			g := x.g
 			report := func(what, demand, gos, ms string) {
-				c.violate(Violation{What: what, Rule: x.s, RuleHex: hx(x.s), Demand: demand, Go: gos, Model: ms, Extra: map[string]string{"family": x.fam}})
+				small := shrinkText(x.s, func(t string) bool { w, _, _, _ := c.c20Judge(t); return w == what })
+				extra := map[string]string{"family": x.fam}
+				if small != x.s {
+					extra["shrunk_from"] = x.s
+					_, demand, gos, ms = c.c20Judge(small)
+				}
+				c.violate(Violation{What: what, Rule: small, RuleHex: hx(small), Demand: demand, Go: gos, Model: ms, Extra: extra})
 			}
 			if g.Panic != "" {
 				report("the shipped lexer/parser panicked", "lexer and parser report errors through their listeners", g.Panic, parA)
